@@ -2,7 +2,6 @@ package mon
 
 import (
 	"compress/gzip"
-	"sync/atomic"
 	"crypto/sha256"
 	"fmt"
 	"io"
@@ -12,6 +11,7 @@ import (
 	"sort"
 	"strconv"
 	"strings"
+	"sync/atomic"
 	"time"
 
 	"github.com/wizenheimer/comet"
@@ -326,4 +326,34 @@ func loadSegmentDocs(dir string, seg uint64, p storeParams) (map[uint32]bool, er
 		}
 	}
 	return out, nil
+}
+
+// obstructNextSegments makes the creation of the next n segments' <comp> file fail: a DIRECTORY is put where the file
+// would go (os.Create on a directory fails with EISDIR). This is the I/O fault the monitors inject from outside the store;
+// clearObstacles removes the directories again (and only them).
+func obstructNextSegments(dir, comp string, n int) []string {
+	var maxID uint64
+	if es, err := os.ReadDir(dir); err == nil {
+		for _, e := range es {
+			if id, ok := segmentIDOf(e.Name()); ok && id > maxID {
+				maxID = id
+			}
+		}
+	}
+	var out []string
+	for i := 1; i <= n; i++ {
+		path := filepath.Join(dir, fmt.Sprintf("%s_%06d.bin.gz", comp, maxID+uint64(i)))
+		if err := os.Mkdir(path, 0o755); err == nil {
+			out = append(out, path)
+		}
+	}
+	return out
+}
+
+func clearObstacles(paths []string) {
+	for _, path := range paths {
+		if st, err := os.Stat(path); err == nil && st.IsDir() {
+			os.Remove(path)
+		}
+	}
 }
